@@ -781,6 +781,11 @@ func (r *rewriter) rangeMap(n *ast.RangeStmt) ast.Stmt {
 	}
 	body = append(body, &ast.IfStmt{Cond: &ast.UnaryExpr{Op: token.NOT, X: okv}, Body: &ast.BlockStmt{List: []ast.Stmt{&ast.BranchStmt{Tok: token.CONTINUE}}}})
 	body = append(body, n.Body.List...)
+	if mapRaces && !r.privateMap(n.X) {
+		// every step of the iteration reads the map again
+		r.mark("map access probe")
+		body = append([]ast.Stmt{&ast.ExprStmt{X: call(rt("MapOp"), mv, ast.NewIdent("false"), strLit(r.probeSite(n.X)))}}, body...)
+	}
 	loop := &ast.RangeStmt{Key: blank(), Value: raw, Tok: token.DEFINE, X: call(rt("MapKeys"), mv), Body: &ast.BlockStmt{List: body}}
 	b := &ast.BlockStmt{List: []ast.Stmt{
 		&ast.AssignStmt{Lhs: []ast.Expr{mv}, Tok: token.DEFINE, Rhs: []ast.Expr{n.X}},
@@ -901,11 +906,67 @@ func (r *rewriter) privateMap(m ast.Expr) bool {
 	case *ast.FuncLit:
 		body = f.Body
 	}
-	return body != nil && v.Pos() >= body.Pos() && v.Pos() < body.End()
+	if body == nil || v.Pos() < body.Pos() || v.Pos() >= body.End() {
+		return false
+	}
+	// a local variable can still be another name for a shared map: it is only
+	// private if everything ever assigned to it is a fresh map
+	fresh := true
+	isFresh := func(e ast.Expr) bool {
+		switch x := e.(type) {
+		case *ast.CompositeLit:
+			return true
+		case *ast.CallExpr:
+			if fid, ok := x.Fun.(*ast.Ident); ok {
+				if b, isB := r.info.Uses[fid].(*types.Builtin); isB && b.Name() == "make" {
+					return true
+				}
+			}
+		case *ast.Ident:
+			return x.Name == "nil"
+		}
+		return false
+	}
+	ast.Inspect(body, func(n ast.Node) bool {
+		switch x := n.(type) {
+		case *ast.AssignStmt:
+			for i, l := range x.Lhs {
+				lid, ok := l.(*ast.Ident)
+				if !ok || (r.info.Defs[lid] != v && r.info.Uses[lid] != v) {
+					continue
+				}
+				if len(x.Rhs) != len(x.Lhs) || !isFresh(x.Rhs[i]) {
+					fresh = false
+				}
+			}
+		case *ast.ValueSpec:
+			for i, name := range x.Names {
+				if r.info.Defs[name] != v {
+					continue
+				}
+				if len(x.Values) > 0 && (len(x.Values) != len(x.Names) || !isFresh(x.Values[i])) {
+					fresh = false
+				}
+			}
+		case *ast.RangeStmt:
+			for _, e := range []ast.Expr{x.Key, x.Value} {
+				if lid, ok := e.(*ast.Ident); ok && (r.info.Defs[lid] == v || r.info.Uses[lid] == v) {
+					fresh = false
+				}
+			}
+		case *ast.UnaryExpr:
+			// &m handed out
+			if lid, ok := x.X.(*ast.Ident); ok && x.Op == token.AND && r.info.Uses[lid] == v {
+				fresh = false
+			}
+		}
+		return fresh
+	})
+	return fresh
 }
 
 // plainExpr: evaluating e twice is harmless and cannot synchronise with
-// another goroutine: no call (conversions, len and cap excepted), no function
+// another goroutine: no call (conversions and the builtins len, cap, append, make, new, copy excepted), no function
 // literal, no receive, no && or || (an operand that is only evaluated on one
 // side must not be evaluated by the probe).
 func (r *rewriter) plainExpr(e ast.Node) bool {
@@ -917,8 +978,11 @@ func (r *rewriter) plainExpr(e ast.Node) bool {
 				return true
 			}
 			if id, isID := x.Fun.(*ast.Ident); isID {
-				if b, isB := r.info.Uses[id].(*types.Builtin); isB && (b.Name() == "len" || b.Name() == "cap") {
-					return true
+				if b, isB := r.info.Uses[id].(*types.Builtin); isB {
+					switch b.Name() {
+					case "len", "cap", "append", "make", "new", "copy":
+						return true
+					}
 				}
 			}
 			ok = false
@@ -973,6 +1037,9 @@ func (r *rewriter) mapProbes(s ast.Stmt) []ast.Stmt {
 	var acc []mapAccess
 	switch n := s.(type) {
 	case *ast.AssignStmt:
+		if up := r.updateProbe(n); up != nil {
+			return []ast.Stmt{up}
+		}
 		if !r.plainExpr(n) {
 			r.skippedProbe(n)
 			return nil
@@ -997,6 +1064,9 @@ func (r *rewriter) mapProbes(s ast.Stmt) []ast.Stmt {
 		if ix, ok := n.X.(*ast.IndexExpr); ok && r.isMap(ix.X) {
 			acc = append(acc, mapAccess{ix.X, true})
 		} else {
+			if up := r.varProbe(n.X); up != nil {
+				return []ast.Stmt{up}
+			}
 			r.mapReads(n.X, &acc)
 		}
 	case *ast.ExprStmt:
@@ -1082,4 +1152,70 @@ func (r *rewriter) skippedProbe(n ast.Node) {
 	if has {
 		count(r.pkgName, "map access without probe (statement with calls)")
 	}
+}
+
+// varProbe returns simrt.VarOp(&x, site) for an in-place update of x, if x is
+// addressable, not a plain local variable of the innermost function, and a
+// plain expression without map elements (those are not addressable and have
+// their own probe).
+func (r *rewriter) varProbe(x ast.Expr) ast.Stmt {
+	if !r.plainExpr(x) || r.privateMap(x) {
+		return nil
+	}
+	if tv, ok := r.info.Types[x]; !ok || !tv.Addressable() {
+		return nil
+	}
+	if id, ok := x.(*ast.Ident); ok && id.Name == "_" {
+		return nil
+	}
+	hasMap := false
+	ast.Inspect(x, func(n ast.Node) bool {
+		if ix, ok := n.(*ast.IndexExpr); ok && r.isMap(ix.X) {
+			hasMap = true
+		}
+		return !hasMap
+	})
+	if hasMap {
+		return nil
+	}
+	r.mark("variable update probe")
+	return &ast.ExprStmt{X: call(rt("VarOp"), &ast.UnaryExpr{Op: token.AND, X: x}, strLit(r.probeSite(x)))}
+}
+
+// updateProbe recognises x op= y and x = append(x, ...) with plain operands.
+func (r *rewriter) updateProbe(n *ast.AssignStmt) ast.Stmt {
+	if len(n.Lhs) != 1 || len(n.Rhs) != 1 {
+		return nil
+	}
+	x := n.Lhs[0]
+	switch n.Tok {
+	case token.ASSIGN:
+		ce, ok := n.Rhs[0].(*ast.CallExpr)
+		if !ok || len(ce.Args) < 1 {
+			return nil
+		}
+		id, ok := ce.Fun.(*ast.Ident)
+		if !ok {
+			return nil
+		}
+		if b, isB := r.info.Uses[id].(*types.Builtin); !isB || b.Name() != "append" {
+			return nil
+		}
+		if r.exprText(ce.Args[0]) != r.exprText(x) {
+			return nil
+		}
+		for _, a := range ce.Args[1:] {
+			if !r.plainExpr(a) {
+				return nil
+			}
+		}
+	case token.DEFINE:
+		return nil
+	default:
+		// x += y and the other assignment operators
+		if !r.plainExpr(n.Rhs[0]) {
+			return nil
+		}
+	}
+	return r.varProbe(x)
 }
